@@ -71,9 +71,9 @@ _STATE = {}
 
 def plan(tier):
     if tier == "quick":
-        out = collections.OrderedDict(cloud=300, lattice=150, thin=200, affine=120, forms=120, pg_affine=250, pg_general=350)
+        out = collections.OrderedDict(cloud=300, lattice=150, thin=200, affine=120, forms=120, layouts=60, pg_affine=250, pg_general=350)
     else:
-        out = collections.OrderedDict(cloud=6000, lattice=3000, thin=4000, affine=2400, forms=2400, pg_affine=5000, pg_general=7000)
+        out = collections.OrderedDict(cloud=6000, lattice=3000, thin=4000, affine=2400, forms=2400, layouts=1200, pg_affine=5000, pg_general=7000)
     # two small always-on streams reproduce the known findings F10 / F11 (known_findings.json) in every run: case 0 of each is a fixed
     # witness, the rest are seeded inputs of the same class. Everything they trigger must match the finding's classifier below,
     # anything else is reported as a plain violation.
@@ -121,6 +121,30 @@ def _grid_nodes(grid):
     return east2d, north2d, dims
 
 
+def layout_of(arr):
+    """Memory-layout class of an argument as the code under test receives it (what the evidence counts)."""
+    name = type(arr).__name__
+    if name == "Series":
+        return "series"
+    if not isinstance(arr, np.ndarray):
+        return "sequence" if isinstance(arr, (list, tuple)) else name
+    tags = ["%dd" % arr.ndim]
+    if arr.ndim >= 2 and min(arr.shape) > 1:
+        if arr.flags.c_contiguous:
+            tags.append("C")
+        elif arr.flags.f_contiguous:
+            tags.append("F")
+        else:
+            tags.append("strided")
+    elif arr.ndim == 1 and arr.size > 1 and not arr.flags.c_contiguous:
+        tags.append("strided")
+    if any(st < 0 for st in arr.strides):
+        tags.append("negative")
+    if not arr.flags.writeable:
+        tags.append("readonly")
+    return "_".join(tags)
+
+
 def _qhull_error():
     try:
         from scipy.spatial import QhullError
@@ -146,7 +170,20 @@ def install(tap, run):
     except (ImportError, ValueError, OSError):
         pass
 
+    hull_cache = collections.OrderedDict()
+
     def make_hull(x, y):
+        key = (np.asarray(x, dtype="float64").tobytes(), np.asarray(y, dtype="float64").tobytes())
+        if key in hull_cache:
+            hull_cache.move_to_end(key)
+            return hull_cache[key]
+        hull = _make_hull(x, y)
+        hull_cache[key] = hull
+        if len(hull_cache) > 8:
+            hull_cache.popitem(last=False)
+        return hull
+
+    def _make_hull(x, y):
         hull = hullmod.Hull(x, y)
         if hull.finite and not hull.degenerate and hull.x.size <= 48:
             run.count("hull_cross_checked_against_ref")
@@ -274,6 +311,15 @@ def install(tap, run):
         if inside.any() and outside.any():
             run.mark_nontrivial("mask", dx, dy, qx, qy, grid is not None)
         run.count("mask:calls_nested_in_project_grid" if ev.parent is not None else "mask:calls_direct")
+        try:
+            if grid is None:
+                run.count("mask:query_layout:%s|%s" % (layout_of(a["coordinates"][0]), layout_of(a["coordinates"][1])))
+            else:
+                first = grid[list(grid.data_vars)[0]] if hasattr(grid, "data_vars") else grid
+                run.count("mask:grid_values_layout:%s" % layout_of(np.asarray(first.values) if not isinstance(first.values, np.ndarray) else first.values))
+            run.count("mask:data_layout:%s|%s" % (layout_of(a["data_coordinates"][0]), layout_of(a["data_coordinates"][1])))
+        except Exception:  # noqa: BLE001
+            pass
         for problem in problems[:1]:
             run.violation("mask_grid" if grid is not None else "mask_array", problem, witness,
                           key="mask:%s:%s" % ("grid" if grid is not None else "array", problem.split(" ")[0]))
@@ -495,6 +541,7 @@ def install(tap, run):
                     fail("pg_antialias_range", "with antialiasing and method %s a projected value leaves the input range [%r, %r] by %.3g (result min %r max %r)"
                          % (method_name, vmin, vmax, over, float(flat[finite].min()), float(flat[finite].max())), "range:" + method_name)
         run.count("pg:method_%s:antialias_%s" % (method_name, bool(antialias)))
+        run.count("pg:grid_values_layout:%s" % layout_of(grid.values))
         run.count("pg:projection_%s" % label)
         run.count("pg:holes_%s" % ("yes" if not valid.all() else "no"))
         run.count("pg:kwargs_%s" % ("+".join(sorted(kwargs)) or "none"))
@@ -869,6 +916,8 @@ def run_case(run, tap, stream, index, rng):  # noqa: U100
                           key="mask:forms")
         run.sample("forms", {"n_data": n, "grid_shape": [north.size, east.size], "dims": list(dims), "inside_nodes": int(inside.sum()),
                              "outside_nodes": int(outside.sum()), "either_way": int(either.sum())})
+    elif stream == "layouts":
+        _layouts_case(run, verde, make_hull, index, rng)
     elif stream == "thin_vertices":
         # known finding F11: data points of a thin rotated cloud queried against their own hull
         if index == 0:
@@ -953,6 +1002,208 @@ def run_case(run, tap, stream, index, rng):  # noqa: U100
                             "method": method if isinstance(method, str) else type(method).__name__, "antialias": antialias,
                             "kwargs": {k: (list(v) if isinstance(v, tuple) else v) for k, v in kwargs.items()},
                             "monitor": "name/dims/coordinates, NaN outside and finite inside the exact hull of the projected cells, value reproduction / range"})
+
+
+def _views(a, rng):
+    """The same logical 2-D array in different memory layouts: {class: array}; every entry equals `a` element-wise."""
+    rows, cols = a.shape
+    big = np.full((rows * 2 + 1, cols * 3 + 2), -7.77e77)
+    big[1::2, 2::3][:rows, :cols] = a
+    strided = big[1::2, 2::3][:rows, :cols]
+    readonly = a.copy()
+    readonly.setflags(write=False)
+    ro_f = np.asfortranarray(a)
+    ro_f.setflags(write=False)
+    out = collections.OrderedDict()
+    out["fortran"] = np.asfortranarray(a)
+    out["transposed_view"] = np.ascontiguousarray(a.T).T
+    out["strided"] = strided
+    out["negative_strides"] = np.ascontiguousarray(a[::-1, ::-1])[::-1, ::-1]
+    out["negative_rows_fortran"] = np.asfortranarray(a[::-1, :])[::-1, :]
+    out["readonly"] = readonly
+    out["readonly_fortran"] = ro_f
+    for name, arr in out.items():
+        assert arr.shape == a.shape and np.array_equal(arr, a, equal_nan=True), name
+    return out
+
+
+def _layouts_case(run, verde, make_hull, index, rng):
+    """
+    Memory layout must not matter: element [i, j] of the mask decides point (easting[i, j], northing[i, j]). Every call is judged
+    element-wise by the mask monitor (exact hull oracle on the logical arrays); here the result is also compared with the result for
+    C-ordered copies of the same logical arrays (identical outside the either-way band).
+    """
+    import pandas as pd
+    import xarray as xr
+
+    n = int(rng.choice([12, 20, 30, 42, 60, 90]))
+    dx, dy = gen.cloud(rng, n, kind=str(rng.choice(["uniform", "jitter", "clusters"])))
+    hull = make_hull(dx, dy)
+    if hull.degenerate or hull.thin_ratio < 1e-2:
+        run.count("layouts:skipped_thin_cloud")
+        return
+    qx, qy = queries_for(rng, hull, dx, dy, n_uniform=160, n_edge=40)
+    perm = rng.permutation(qx.size)
+    rows = int(rng.integers(3, 9))
+    cols = int(rng.integers(rows + 1, 14)) * 2  # non-square, even number of columns (3-D reshapes)
+    if rows * cols > qx.size:
+        cols = (qx.size // rows) // 2 * 2
+    q_e = np.ascontiguousarray(qx[perm][: rows * cols].reshape(rows, cols))
+    q_n = np.ascontiguousarray(qy[perm][: rows * cols].reshape(rows, cols))
+    d_rows = [r for r in (2, 3, 4, 5, 6) if n % r == 0 and n // r != r][0]
+    d_e, d_n = dx.reshape(d_rows, -1).copy(), dy.reshape(d_rows, -1).copy()
+    depth = hull.depth(q_e, q_n)
+    decided = np.abs(depth) > hull.margin(q_e, q_n)
+    base = _mask_call(run, verde, (d_e, d_n), coordinates=(q_e, q_n))
+    if base is None:
+        return
+    base_flat = np.asarray(base).ravel()
+
+    def compare(label, result, shape):
+        run.count("layout:%s" % label)
+        if result is None:
+            run.violation("mask_layout_invariance", "layout class %s is refused although the C-ordered copy of the same arrays is accepted" % label,
+                          {"layout": label, "data": [dx, dy], "query_easting": q_e, "query_northing": q_n}, key="layout:refused:" + label)
+            return
+        res = np.asarray(result)
+        run.evaluated("mask_layout_invariance", int(decided.sum()))
+        problem = None
+        if res.shape != tuple(shape):
+            problem = "mask shape %r is not the logical shape %r of the query arrays" % (res.shape, tuple(shape))
+        else:
+            diff = decided & (res.ravel() != base_flat)
+            if diff.any():
+                k = int(np.argmax(diff))
+                problem = ("element %r (point %r, %r; depth %.3g) is %s, but %s for the C-ordered copy of the same logical arrays; %d of %d elements differ"
+                           % (np.unravel_index(k, shape), float(q_e.ravel()[k]), float(q_n.ravel()[k]), float(depth[k]), bool(res.ravel()[k]),
+                              bool(base_flat[k]), int(diff.sum()), int(decided.sum())))
+        if problem:
+            run.violation("mask_layout_invariance", "memory layout %s changes the mask: %s" % (label, problem),
+                          {"layout": label, "data": [dx, dy], "query_easting": q_e, "query_northing": q_n, "mask_c_order": base, "mask": res},
+                          key="layout:" + label)
+
+    ve, vn = _views(q_e, rng), _views(q_n, rng)
+    for label in ve:
+        compare("query_" + label, _mask_call(run, verde, (d_e, d_n), coordinates=(ve[label], vn[label])), (rows, cols))
+    # the two coordinate arrays in *different* layouts: any flattening that follows memory order pairs the wrong eastings and northings
+    compare("query_mixed_fortran_easting", _mask_call(run, verde, (d_e, d_n), coordinates=(ve["fortran"], q_n)), (rows, cols))
+    compare("query_mixed_transposed_northing", _mask_call(run, verde, (d_e, d_n), coordinates=(q_e, vn["transposed_view"])), (rows, cols))
+    compare("query_mixed_strided_negative", _mask_call(run, verde, (d_e, d_n), coordinates=(ve["strided"], vn["negative_strides"])), (rows, cols))
+    # 3-D arrays (C, Fortran and a transposed view of the same logical array)
+    shape3 = (rows, 2, cols // 2)
+    e3, n3 = q_e.reshape(shape3), q_n.reshape(shape3)
+    compare("query_3d_c", _mask_call(run, verde, (d_e, d_n), coordinates=(e3, n3)), shape3)
+    compare("query_3d_fortran", _mask_call(run, verde, (d_e, d_n), coordinates=(np.asfortranarray(e3), np.asfortranarray(n3))), shape3)
+    compare("query_3d_mixed", _mask_call(run, verde, (d_e, d_n), coordinates=(np.asfortranarray(e3), n3)), shape3)
+    compare("query_3d_axes_moved_view", _mask_call(run, verde, (d_e, d_n), coordinates=(
+        np.ascontiguousarray(np.moveaxis(e3, 0, 2)).transpose(2, 0, 1), np.ascontiguousarray(np.moveaxis(n3, 1, 0)).transpose(1, 0, 2))), shape3)
+    # pandas Series (1-D, shuffled index labels) and plain 1-D strided views
+    labels = rng.permutation(rows * cols) + 100
+    compare("query_series", _mask_call(run, verde, (d_e, d_n), coordinates=(pd.Series(q_e.ravel(), index=labels), pd.Series(q_n.ravel(), index=labels))),
+            (rows * cols,))
+    compare("query_1d_reversed_view", _mask_call(run, verde, (d_e, d_n), coordinates=(q_e.ravel()[::-1].copy()[::-1], q_n.ravel()[::-1].copy()[::-1])),
+            (rows * cols,))
+    # the DATA coordinates in other layouts (same point set, same pairing)
+    de, dn = _views(d_e, rng), _views(d_n, rng)
+    for label in ("fortran", "transposed_view", "strided", "negative_strides", "readonly_fortran"):
+        compare("data_" + label, _mask_call(run, verde, (de[label], dn[label]), coordinates=(q_e, q_n)), (rows, cols))
+    compare("data_mixed_fortran_easting", _mask_call(run, verde, (de["fortran"], d_n), coordinates=(q_e, q_n)), (rows, cols))
+    compare("data_mixed_transposed_northing", _mask_call(run, verde, (d_e, dn["transposed_view"]), coordinates=(q_e, q_n)), (rows, cols))
+    compare("data_series", _mask_call(run, verde, (pd.Series(dx, index=rng.permutation(n) + 7), pd.Series(dy, index=rng.permutation(n) + 7)),
+                                      coordinates=(q_e, q_n)), (rows, cols))
+    compare("data_and_query_fortran", _mask_call(run, verde, (de["fortran"], dn["fortran"]), coordinates=(ve["fortran"], vn["fortran"])), (rows, cols))
+    # with a projection in between
+    proj = axis_affine(rng, dx, dy)
+    pbase = _mask_call(run, verde, (d_e, d_n), coordinates=(q_e, q_n), projection=proj)
+    pvar = _mask_call(run, verde, (de["fortran"], d_n), coordinates=(ve["transposed_view"], vn["fortran"]), projection=proj)
+    if pbase is not None:
+        base_flat = np.asarray(pbase).ravel()
+        ph = make_hull(*_two(proj(dx, dy)))
+        pdepth = ph.depth(*_two(proj(q_e.ravel(), q_n.ravel())))
+        decided = np.abs(pdepth) > ph.margin(*_two(proj(q_e.ravel(), q_n.ravel())))
+        depth = pdepth
+        compare("projection_with_mixed_layouts", pvar, (rows, cols))
+
+    # ---- grid form: Dataset whose variable (and coordinate vectors) are not C-contiguous ----------------------------------
+    east = np.linspace(dx.min() - 0.2 * np.ptp(dx), dx.max() + 0.2 * np.ptp(dx), int(rng.integers(5, 14)))
+    north = np.linspace(dy.min() - 0.2 * np.ptp(dy), dy.max() + 0.2 * np.ptp(dy), int(rng.integers(15, 22)))
+    vals = rng.normal(size=(north.size, east.size))
+    ds_c = xr.Dataset({"scalars": (["northing", "easting"], vals.copy())}, coords={"northing": north.copy(), "easting": east.copy()})
+    gbase = _mask_call(run, verde, (d_e, d_n), grid=ds_c)
+    e2, n2 = np.meshgrid(east, north)
+    gdepth = hull.depth(e2, n2)
+    gdecided = np.abs(gdepth) > hull.margin(e2, n2)
+    big_e = np.repeat(east, 2)
+    grids = collections.OrderedDict()
+    grids["grid_values_fortran"] = xr.Dataset({"scalars": (["northing", "easting"], np.asfortranarray(vals))}, coords={"northing": north, "easting": east})
+    grids["grid_values_transposed_view"] = xr.Dataset({"scalars": (["northing", "easting"], np.ascontiguousarray(vals.T).T)},
+                                                     coords={"northing": north, "easting": east})
+    grids["grid_transposed_twice"] = ds_c.transpose("easting", "northing").transpose("northing", "easting")
+    grids["grid_strided_coordinate_vectors"] = xr.Dataset({"scalars": (["northing", "easting"], _views(vals, rng)["strided"])},
+                                                         coords={"northing": north[::-1].copy()[::-1], "easting": big_e[::2]})
+    for label, ds in grids.items():
+        res = _mask_call(run, verde, (de["fortran"], dn["fortran"]) if label.endswith("fortran") else (d_e, d_n), grid=ds)
+        run.count("layout:%s" % label)
+        if res is None or gbase is None:
+            continue
+        run.evaluated("mask_layout_invariance", int(gdecided.sum()))
+        got, want = np.asarray(res["scalars"].values), np.asarray(gbase["scalars"].values)
+        same = (got == want) | (np.isnan(got) & np.isnan(want))
+        if got.shape != want.shape or (gdecided.reshape(want.shape) & ~same).any():
+            run.violation("mask_layout_invariance", "grid form: layout %s changes the masked grid (%d nodes differ outside the band)"
+                          % (label, int((gdecided.reshape(want.shape) & ~same).sum()) if got.shape == want.shape else -1),
+                          {"layout": label, "data": [dx, dy], "easting": east, "northing": north, "values": vals, "masked_c_order": want, "masked": got},
+                          key="layout:" + label)
+
+    # ---- project_grid: DataArrays whose .values are not C-contiguous -------------------------------------------------------
+    if index % 2 == 0:
+        grid, holes = random_grid(rng)
+        gv = np.asarray(grid.values)
+        north_g, east_g = np.asarray(grid.coords[grid.dims[0]].values), np.asarray(grid.coords[grid.dims[1]].values)
+        proj = axis_affine(rng, east_g, north_g) if index % 4 == 0 else general_projection(rng, east_g, north_g)
+        method = ["linear", "nearest", "cubic"][(index // 2) % 3]
+        antialias = bool((index // 2) % 2)
+        dims = grid.dims
+
+        def build(values, n_vec=north_g, e_vec=east_g):
+            return xr.DataArray(values, coords={dims[0]: n_vec, dims[1]: e_vec}, dims=dims, name=grid.name)
+
+        def project(da):
+            try:
+                with warnings.catch_warnings():
+                    warnings.simplefilter("ignore")
+                    return verde.project_grid(da, proj, method=method, antialias=antialias)
+            except _STATE["QhullError"]:
+                run.count("refused:project_grid_qhull (counted, not failed)")
+                return None
+
+        ref_out = project(build(np.ascontiguousarray(gv)))
+        variants = collections.OrderedDict()
+        variants["pg_values_fortran"] = build(np.asfortranarray(gv))
+        variants["pg_values_transposed_view"] = build(np.ascontiguousarray(gv.T).T)
+        variants["pg_transposed_twice"] = build(np.ascontiguousarray(gv)).transpose(dims[1], dims[0]).transpose(dims[0], dims[1])
+        variants["pg_values_strided_coords_views"] = build(_views(gv, rng)["strided"], north_g[::-1].copy()[::-1], np.repeat(east_g, 2)[::2])
+        ro = np.asfortranarray(gv)
+        ro.setflags(write=False)
+        variants["pg_values_readonly_fortran"] = build(ro)
+        for label, da in variants.items():
+            out = project(da)
+            run.count("layout:%s" % label)
+            if ref_out is None or out is None:
+                if (ref_out is None) != (out is None):
+                    run.violation("pg_layout_invariance", "project_grid accepts the grid in one memory layout and refuses it in another (%s)" % label,
+                                  {"layout": label, "grid": grid, "projection": repr(proj), "method": method, "antialias": antialias}, key="pg_layout:refusal")
+                continue
+            run.evaluated("pg_layout_invariance", int(np.asarray(ref_out.values).size))
+            a_, b_ = np.asarray(out.values), np.asarray(ref_out.values)
+            ok = a_.shape == b_.shape and bool(np.all((a_ == b_) | (np.isnan(a_) & np.isnan(b_))))
+            ok = ok and all(np.array_equal(np.asarray(out.coords[d].values), np.asarray(ref_out.coords[d].values)) for d in ref_out.dims)
+            if not ok:
+                run.violation("pg_layout_invariance", "project_grid gives a different grid when the input values are laid out as %s (same logical DataArray)" % label,
+                              {"layout": label, "grid": grid, "grid_values": gv, "projection": repr(proj), "method": method, "antialias": antialias,
+                               "result_c_order": b_, "result": a_}, key="pg_layout:" + label)
+    run.sample("layouts", {"query_shape": [rows, cols], "data_shape": list(d_e.shape), "classes": sorted(ve) + ["mixed", "3d", "series", "grid forms", "project_grid"],
+                           "monitor": "mask[i, j] decides (easting[i, j], northing[i, j]) in every memory layout; compared with the exact oracle and with the C-ordered copy"})
 
 
 def finish(run, tap, shard):  # noqa: U100
